@@ -309,20 +309,21 @@ func runC13(c c13Case) vh.Result {
 		if l.DownMs > 0 {
 			mu.Lock()
 			servers[len(servers)-1].StopListening()
+			connLog = append(connLog, fmt.Sprintf("(stopped listening at +%v)", time.Since(t00).Round(time.Millisecond)))
 			mu.Unlock()
 		}
 		switch l.End {
 		case "reset":
 			cur.pc.Reset()
 		case "close":
-			cur.pc.GracefulClose(200 * time.Millisecond)
+			cur.pc.CloseSoon(200 * time.Millisecond)
 		case "streamclose":
 			cur.pc.Send("</stream:stream>")
-			cur.pc.GracefulClose(200 * time.Millisecond)
+			cur.pc.CloseSoon(200 * time.Millisecond)
 		case "streamerror":
 			// the server ends the stream with a (non-conflict) stream error, as RFC 6120 4.9 prescribes, then closes
 			cur.pc.Send("<stream:error><system-shutdown xmlns='urn:ietf:params:xml:ns:xmpp-streams'/></stream:error></stream:stream>")
-			cur.pc.GracefulClose(200 * time.Millisecond)
+			cur.pc.CloseSoon(200 * time.Millisecond)
 		}
 		if last && c.StopWhileDown {
 			// the reconnection loop is running against a server that refuses connections: Stop must still end Run
@@ -346,6 +347,7 @@ func runC13(c c13Case) vh.Result {
 			}
 			mu.Lock()
 			servers = append(servers, ns)
+			connLog = append(connLog, fmt.Sprintf("(listening again on %s at +%v)", ns.Addr, time.Since(t00).Round(time.Millisecond)))
 			mu.Unlock()
 		}
 		label := fmt.Sprintf("loss %d (%s, down %d ms, failing attempts %v)", li, l.End, l.DownMs, l.Fails)
